@@ -301,11 +301,12 @@ def _del(x, path):
     return y
 
 
-def shrink_with(case, candidates, still_fails, max_tests=300):
+def shrink_with(case, candidates, still_fails, max_tests=300, max_seconds=90):
     """greedy shrinking: `candidates(case)` yields smaller well-formed variants; keep the first that still fails"""
     tests = 0
     improved = True
-    while improved and tests < max_tests:
+    t0 = time.time()
+    while improved and tests < max_tests and time.time() - t0 < max_seconds:
         improved = False
         for c in candidates(case):
             tests += 1
@@ -317,6 +318,6 @@ def shrink_with(case, candidates, still_fails, max_tests=300):
                 case = c
                 improved = True
                 break
-            if tests >= max_tests:
+            if tests >= max_tests or time.time() - t0 >= max_seconds:
                 break
     return case
